@@ -298,6 +298,9 @@ func checkSigCase(c SigCase, r *Recorder) error {
 		} else if verr != nil && signer != nil {
 			return errf("fault %q: CheckDebsig returned an error AND a signer", c.Fault)
 		}
+		if both && strings.HasPrefix(c.Fault, "sig+") && strings.Contains(c.Fault, "foreign-signature") {
+			r.Count("accepted-next-to-somebody-elses-signatures", 1)
+		}
 		switch c.Expect {
 		case "accept":
 			if !both {
@@ -352,6 +355,56 @@ func pgpHeaderLen(p []byte) int {
 	return 0
 }
 
+// foreignSigOfSize builds a version-4 RSA signature packet of exactly `total` bytes (297 .. 65000)
+// by a key nobody knows (issuer 0x0102030405060708): creation time plus one private-use subpacket
+// (type 100, not critical) of the length that makes up the size. A reader of a signature block
+// takes it for somebody else's signature.
+func foreignSigOfSize(total int) []byte {
+	d := total - 296
+	if d < 0 || d > 65000 {
+		return nil
+	}
+	hashed := []byte{5, 2, 0x65, 0x53, 0xF1, 0x00} // creation time
+	hashed = append(hashed, 0xFF, byte((1+d)>>24), byte((1+d)>>16), byte((1+d)>>8), byte(1+d), 100)
+	hashed = append(hashed, bytes.Repeat([]byte{'n'}, d)...)
+	body := []byte{4, 0, 1, 8, byte(len(hashed) >> 8), byte(len(hashed))}
+	body = append(body, hashed...)
+	body = append(body, 0, 10, 9, 16, 1, 2, 3, 4, 5, 6, 7, 8) // unhashed: issuer
+	body = append(body, 0xAB, 0xCD)                          // left 16 bits of the hash
+	body = append(body, 0x08, 0x00)                          // MPI of 2048 bits
+	mpi := bytes.Repeat([]byte{0x5A}, 256)
+	mpi[0] = 0x9A
+	body = append(body, mpi...)
+	n := len(body)
+	return append([]byte{0xC2, 0xFF, byte(n >> 24), byte(n >> 16), byte(n >> 8), byte(n)}, body...)
+}
+
+// pgpFillTo returns the signature p followed by foreign signatures so that together they are
+// exactly `total` bytes long (nil when total is too small).
+func pgpFillTo(p []byte, total int) []byte {
+	rest := total - len(p)
+	if rest < 297 {
+		return nil
+	}
+	out := append([]byte{}, p...)
+	for rest > 0 {
+		chunk := rest
+		if chunk > 60000 {
+			chunk = 60000
+			if rest-chunk < 297 {
+				chunk = rest - 297
+			}
+		}
+		f := foreignSigOfSize(chunk)
+		if f == nil || len(f) != chunk {
+			return nil
+		}
+		out = append(out, f...)
+		rest -= chunk
+	}
+	return out
+}
+
 func faultClass(f string) string {
 	for i := 0; i < len(f); i++ {
 		if f[i] == '@' || f[i] == ':' {
@@ -404,7 +457,7 @@ func genSignedBase(t *rapid.T) SignedBase {
 
 var specC16 = Register(&Spec[SigCase]{
 	Prop: "C16", Name: "debsig",
-	Rule:  "fault enumeration over generated debsig-signed packages (C14 models with stored/gzip/zstd members, role in {origin, maint, archive}, RSA signer from a per-process pool, detached binary signature over debian-binary|control|data in '_gpg<role>'): the untampered package with the signer in the keyring (accept - and after the check the handle still delivers the signed payload, and a repeated check agrees; the same with another signed package of the same layout loaded before and after it and left open); EVERY single-byte XOR 0x01 inside the three signed members (reject); a decoy control.*/data.* member with a different extension (a stored tar carrying 'Package: evil', or a copy) a same-name duplicate with changed content, and EMPTY ones (a bare 60-byte header, also with a blank size column) inserted at EVERY member position - the end of the file included -, each loaded 64 times (reject); a decoy behind a run of 60 .. 128 NUL / newline bytes that follows the genuine members (reject); a decoy named the GNU way - a '//' name table plus a member '/0' - at every position (must fail or expose the signed content); a role that is not present, an unrelated keyring, an empty keyring - nil slice or empty slice - (reject); data and control swapped in the file with a signature made over the file-order concatenation (reject) or the genuine one (must fail or expose the signed content); a second CheckDebsig on the same handle with an unrelated or empty keyring after a successful first one (the second must fail); EVERY single-byte XOR inside the signature member (must fail or still verify the unmodified content); per signed member one altered byte in a package loaded from a FILE that is closed before the check while its path (or the path told to Load) leads to the genuine package (reject); the signature member followed by junk, a NUL byte, a truncated or a damaged second signature, followed by the first k bytes of a second copy for EVERY k, with a well-formed user-ID or literal-data packet or an empty / one-byte / indeterminate-length signature packet in front of or behind it, and a second copy whose version, public-key-algorithm or hash-algorithm byte lost a bit (five masks) in front of or behind the good one (reject); the signature member replaced by its ASCII-armored form, alone (either outcome), with a foreign/empty keyring and with flipped bytes in each signed member (reject). Oracle: reject => Load or CheckDebsig fails on every repetition; always: if both succeed, the control data exposed equals the signed package's model and the signer is the signing entity. Non-trivial: every faulted case; distinct by (bytes, role, keyring).",
+	Rule:  "fault enumeration over generated debsig-signed packages (C14 models with stored/gzip/zstd members, role in {origin, maint, archive}, RSA signer from a per-process pool, detached binary signature over debian-binary|control|data in '_gpg<role>'): the untampered package with the signer in the keyring (accept - and after the check the handle still delivers the signed payload, and a repeated check agrees; the same with another signed package of the same layout loaded before and after it and left open); EVERY single-byte XOR 0x01 inside the three signed members (reject); a decoy control.*/data.* member with a different extension (a stored tar carrying 'Package: evil', or a copy) a same-name duplicate with changed content, and EMPTY ones (a bare 60-byte header, also with a blank size column) inserted at EVERY member position - the end of the file included -, each loaded 64 times (reject); a decoy behind a run of 60 .. 128 NUL / newline bytes that follows the genuine members (reject); a decoy named the GNU way - a '//' name table plus a member '/0' - at every position (must fail or expose the signed content); a role that is not present, an unrelated keyring, an empty keyring - nil slice or empty slice - (reject); data and control swapped in the file with a signature made over the file-order concatenation (reject) or the genuine one (must fail or expose the signed content); a second CheckDebsig on the same handle with an unrelated or empty keyring after a successful first one (the second must fail); EVERY single-byte XOR inside the signature member (must fail or still verify the unmodified content); per signed member one altered byte in a package loaded from a FILE that is closed before the check while its path (or the path told to Load) leads to the genuine package (reject); the signature member followed by junk, a NUL byte, a newline, CR LF, a blank or 0xff, a truncated or a damaged second signature, followed by the first k bytes of a second copy for EVERY k; the good signature in front of or behind a signature of a key nobody knows, and followed by such signatures (sized by a private-use subpacket) that fill the member to exactly 4 KiB, 64 KiB or 1 MiB (accepted - then the payload handed out after the check is the signed one - or refused for a reason of its own) and then by junk, a damaged copy of the good one or a user-ID packet (reject); with a well-formed user-ID or literal-data packet or an empty / one-byte / indeterminate-length signature packet in front of or behind it, and a second copy whose version, public-key-algorithm or hash-algorithm byte lost a bit (five masks) in front of or behind the good one (reject); the signature member replaced by its ASCII-armored form, alone (either outcome), with a foreign/empty keyring and with flipped bytes in each signed member (reject). Oracle: reject => Load or CheckDebsig fails on every repetition; always: if both succeed, the control data exposed equals the signed package's model and the signer is the signing entity. Non-trivial: every faulted case; distinct by (bytes, role, keyring).",
 	Check: checkSigCase,
 })
 
@@ -542,11 +595,52 @@ func enumerateSigFaults(b SignedBase, yield func(SigCase) bool) bool {
 		sig := members[len(members)-1].Data
 		flipped := append([]byte{}, sig...)
 		flipped[len(flipped)-3] ^= 1
-		for name, tail := range map[string][]byte{"junk": []byte("JUNK"), "nul": {0}, "truncated-second": sig[:len(sig)/2], "damaged-second": flipped} {
+		for name, tail := range map[string][]byte{"junk": []byte("JUNK"), "nul": {0}, "newline": {'\n'}, "crlf": {'\r', '\n'}, "blank": {' '}, "0xff": {0xff}, "truncated-second": sig[:len(sig)/2], "damaged-second": flipped} {
 			sm := append([]ArMember{}, members...)
 			sm[len(sm)-1].Data = append(append([]byte{}, sig...), tail...)
 			if !yield(mk(renderAr(sm), "reject", "sig+"+name, 2)) {
 				return false
+			}
+		}
+	}
+	// ... however long the member is: signatures by keys nobody knows (somebody else's signatures,
+	// sized by a private-use subpacket) behind the good one fill it to exactly 4 KiB, 64 KiB or
+	// 1 MiB (a packet boundary on the mark), and the junk, the damaged copy or the packet that is no
+	// signature comes behind that
+	{
+		sig := members[len(members)-1].Data
+		flipped := append([]byte{}, sig...)
+		flipped[len(flipped)-3] ^= 1
+		for order, two := range [][]byte{append(append([]byte{}, sig...), foreignSigOfSize(400)...), append(append([]byte{}, foreignSigOfSize(400)...), sig...)} {
+			sm := append([]ArMember{}, members...)
+			sm[len(sm)-1].Data = two
+			fc := mk(renderAr(sm), "sigfault", fmt.Sprintf("sig+one-foreign-signature/%d", order), 2)
+			fc.Files = append([]TarFile{}, b.M.DataFiles...)
+			if !yield(fc) {
+				return false
+			}
+		}
+		for _, total := range []int{4096, 65536, 1 << 20} {
+			fill := pgpFillTo(sig, total)
+			if fill == nil {
+				continue
+			}
+			sm := append([]ArMember{}, members...)
+			sm[len(sm)-1].Data = fill
+			fc := mk(renderAr(sm), "sigfault", fmt.Sprintf("sig+foreign-signatures-filling:%d", total), 1)
+			fc.Files = append([]TarFile{}, b.M.DataFiles...) // if it verifies, the payload handed out afterwards is the signed one
+			if !yield(fc) {
+				return false
+			}
+			for name, tail := range map[string][]byte{"junk": []byte("JUNK"), "damaged-copy": flipped, "user-id-packet": foreignPackets["user-id-packet"]} {
+				if tail == nil {
+					continue
+				}
+				sm := append([]ArMember{}, members...)
+				sm[len(sm)-1].Data = append(append([]byte{}, fill...), tail...)
+				if !yield(mk(renderAr(sm), "reject", fmt.Sprintf("sig+foreign-signatures-filling+%s:%d", name, total), 1)) {
+					return false
+				}
 			}
 		}
 	}
